@@ -432,9 +432,18 @@ func (w *World) depositTx(h wire.Hash) *wire.MsgTx {
 
 // chainTx finds a transaction on the best chain.
 func (w *World) chainTx(h wire.Hash) *wire.MsgTx {
+	// transactions of attached blocks do not change any more: their ids are computed once per world
+	if w.txIDs == nil {
+		w.txIDs = map[*wire.MsgTx]wire.Hash{}
+	}
 	for _, b := range w.node.Chain {
 		for _, tx := range b.MsgBlock().Transactions {
-			if tx.TxHash() == h {
+			id, ok := w.txIDs[tx]
+			if !ok {
+				id = tx.TxHash()
+				w.txIDs[tx] = id
+			}
+			if id == h {
 				return tx
 			}
 		}
